@@ -123,12 +123,11 @@ class AbsNode:
         oid = getattr(other, "id", None)
         if type(oid) is not SId:
             return False
-        k = ctx().__dict__.setdefault("_abs_eq", {})
-        key = (self._fam.name, str(self._idx), repr(oid.t))
-        if key not in k:
-            k[key] = z3.Bool(fresh_name(f"eq.{self._fam.name}"))
-            ctx().axiom(z3.Implies(k[key], self._var().id.t == oid.t))
-        return lift(k[key])
+        import hashlib
+        tag = hashlib.md5(oid.t.sexpr().encode()).hexdigest()[:8]
+        t = z3.Function(f"eq.{self._fam.name}|{tag}", I, Bo)(self._idx)
+        ctx().axiom(z3.Implies(t, self._var().id.t == oid.t))
+        return lift(t)
 
     def __hash__(self):
         raise Unsupported("native hash of an abstract node")
